@@ -76,6 +76,7 @@ type Engine struct {
 	Assumes       map[string]int
 	OverflowPaths int
 	Harness       string
+	TraceOut    map[string][]string // selftest: the trace of each finished path
 	cexCount      map[string]int
 	PrecByLabel   map[string]int
 	Samples       []string
@@ -207,6 +208,8 @@ func newFrame(fn *ssa.Function, dest ssa.Value) *Frame {
 type Worker struct {
 	E *Engine
 	S *Solver
+	pendingUser *StructV
+	curState    *State
 }
 
 // Run explores all paths of harness fn with cfg.Workers workers.
@@ -321,6 +324,7 @@ func (w *Worker) finishPath(end PathEnd) {
 
 // runPath executes one state until it ends (returns end) or forks (returns successors).
 func (w *Worker) runPath(s *State) (succ []*State, end PathEnd) {
+	w.curState = s
 	defer func() {
 		if r := recover(); r != nil {
 			succ = nil
@@ -449,6 +453,13 @@ func (w *Worker) endOfPath(s *State) PathEnd {
 		}
 	}
 	e.mu.Lock()
+	if e.TraceOut != nil {
+		tr := append([]string(nil), s.Trace...)
+		if r, _ := w.S.CheckPreciseTO(s.Decls, s.PC, nil, nil, 20000); r == "unsat" {
+			tr = append(tr, "$infeasible")
+		}
+		e.TraceOut[fmt.Sprint(len(e.TraceOut))] = tr
+	}
 	for _, r := range s.Reached {
 		if e.Reached[r] > 0 || confirmed {
 			e.Reached[r]++
